@@ -21,6 +21,8 @@ import MdModel.Walk.Sym
 import MdModel.Walk.Cfi
 import MdModel.Walk.Proto
 import MdModel.Walk.Layout
+import MdModel.Walk.WinWalk
+import MdModel.Walk.LayoutMixed
 namespace MdModel.Walk
 open MdModel MdModel.Proto
 
@@ -29,16 +31,61 @@ def handleWalk (args : List String) : String :=
   | some r => showWalk r.arch (walk r.env r.mem r.ctx)
   | none => "bad-op"
 
-/-- `chain pre <technique> exp:<ret,sp,fp|-,module,function>|.. <walk fields>`: the decidable
-    precondition of the C04 theorems on a generated case -/
+/-- `win:<module>:<rec>;<rec>..,<module>:..` with `rec = ty|addr|size|par|sav|loc|hp|rest`
+    (`_` for a space inside `rest`): the STACK WIN records per module, by module position -/
+def parseWinRec (s : String) : Option Win.Rec :=
+  match s.splitOn "|" with
+  | [ty, addr, size, par, sav, loc, hp, rest] =>
+    match ty.toList, hp.toList, addr.toNat?, size.toNat?, par.toNat?, sav.toNat?, loc.toNat? with
+    | [tyc], [hpc], some a, some sz, some p, some sv, some lc =>
+      if sz ≤ U32MAX ∧ p ≤ U32MAX ∧ sv ≤ U32MAX ∧ lc ≤ U32MAX ∧ a ≤ U64MAX ∧ (tyc = '0' ∨ tyc = '4') ∧
+         (hpc = '0' ∨ hpc = '1') ∧ rest ≠ "" then
+        some { ty := tyc, addr := a, size := sz, par := UInt32.ofNat p, sav := UInt32.ofNat sv,
+               loc := UInt32.ofNat lc, hp := hpc, rest := (unUnderscore rest).toList }
+      else none
+    | _, _, _, _, _, _, _ => none
+  | _ => none
+
+def parseWins (mods : List Module) (field : String) : Option (List (List Win.Rec)) := do
+  let body ← stripPrefix? field "win:"
+  if body = "-" then some (mods.map fun _ => [])
+  else
+    let named ← (body.splitOn ",").mapM fun m =>
+      let n := String.ofList (m.toList.takeWhile (· ≠ ':'))
+      let recs := String.ofList ((m.toList.dropWhile (· ≠ ':')).drop 1)
+      ((pieces recs ";").mapM parseWinRec).map fun l => (n, l)
+    if named.all fun (n, _) => mods.any fun m => m.name = n then
+      some (mods.map fun m => (named.lookup m.name).getD [])
+    else none
+
+/-- `chain pre <technique> exp:<frames> [win:<records>] <walk fields>`: the decidable precondition
+    of the C04 theorems on a generated case;
+    `chain walk win:<records> <walk fields>`: the walk itself with STACK WIN records present -/
 def handleChain (args : List String) : String :=
   match args with
+  | "walk" :: win :: rest =>
+    match parseRequest rest with
+    | some r =>
+      match parseWins r.world.mods win with
+      | some wins =>
+        let env := mkEnvW r.arch r.os r.world wins (r.mem.getD { base := 0, bytes := #[] })
+        showWalk r.arch (walk env r.mem r.ctx)
+      | none => "bad-op"
+    | none => "bad-op"
   | "pre" :: tech :: exp :: rest =>
+    let (win, rest) := match rest with
+      | f :: more => if f.startsWith "win:" then (f, more) else ("win:-", rest)
+      | [] => ("win:-", rest)
     match parseRequest rest, parseExp exp, Technique.ofStr tech with
     | some r, some chain, some t =>
-      match r.mem with
-      | some m => if Pre r.world r.env r.arch r.os t m r.ctx chain then "1" else "0"
-      | none => "0"
+      match r.mem, parseWins r.world.mods win with
+      | some m, some wins =>
+        if t = .win ∨ t = .mixed then
+          if PreW r.world wins (mkEnvW r.arch r.os r.world wins m) r.arch r.os m r.ctx chain then "1" else "0"
+        else if !noWins wins then "0"
+        else if Pre r.world r.env r.arch r.os t m r.ctx chain then "1" else "0"
+      | none, some _ => "0"
+      | _, none => "bad-op"
     | _, _, _ => "bad-op"
   | _ => "bad-op"
 
